@@ -117,70 +117,74 @@ def correspond(ctx, scale):
             mod = VectorQuantize(dim=d, **kw)
             cbs = [mod._codebook]
         mod.train(train)
-        x = torch.randn(2, 3, d)
-        log, restore = capture(cbs)
-        try:
-            with torch.no_grad():
-                mod(x, freeze_codebook=True, **({'sample_codebook_temp': Tcall} if Tcall is not None else {}))
-        except Exception as ex:
-            failures.append({'key': f'exception:{type(ex).__name__}', 'what': f'{kw} T={Tcall}: {ex!r}', 'case': dict(kw=kw)})
-            continue
-        finally:
-            restore()
-        ev += 1
-        Teff = Tcall if Tcall is not None else Tcfg
-        for pos, ent in [(i, e) for i, e in enumerate(log) if e[0] == 'sample']:
-            _, logits, skw, ind, n0 = ent
-            noises = [e for e in log[n0:pos] if e[0] == 'noise']
-            T_seen = skw.get('temperature')
-            if T_seen != Teff:
-                failures.append({'key': 'temperature-resolution', 'what': f'{kw}: per-call temperature {Tcall} / configured {Tcfg} but gumbel_sample received {T_seen}', 'case': dict(kw=kw, Tcall=Tcall)})
-            active = train and stochastic and Teff > 0
-            L2 = logits.reshape(-1, logits.shape[-1])
-            I2 = ind.reshape(-1)
-            if not active:
-                dist['fallback_cases'] += 1
-                if noises:
-                    failures.append({'key': 'noise-in-deterministic-mode', 'what': f'{kw} train={train} T={Teff}: gumbel noise was drawn although selection must be deterministic', 'case': dict(kw=kw, T=Teff, train=train)})
+        # a HISTORY of calls on this one layer object: the temperature in force at each call is the per-call one if given, else the CONFIGURED one
+        # (a per-call temperature must not stick to later calls)
+        call_temps = [Tcall, (None if Tcall is not None else [0.5, 0.0][ci % 2]), None]
+        for call_no, Tcall in enumerate(call_temps):
+            x = torch.randn(2, 3, d)
+            log, restore = capture(cbs)
+            try:
+                with torch.no_grad():
+                    mod(x, freeze_codebook=True, **({'sample_codebook_temp': Tcall} if Tcall is not None else {}))
+            except Exception as ex:
+                failures.append({'key': f'exception:{type(ex).__name__}', 'what': f'{kw} T={Tcall}: {ex!r}', 'case': dict(kw=kw)})
+                break
+            finally:
+                restore()
+            ev += 1
+            Teff = Tcall if Tcall is not None else Tcfg
+            for pos, ent in [(i, e) for i, e in enumerate(log) if e[0] == 'sample']:
+                _, logits, skw, ind, n0 = ent
+                noises = [e for e in log[n0:pos] if e[0] == 'noise']
+                T_seen = skw.get('temperature')
+                if T_seen != Teff:
+                    failures.append({'key': 'temperature-resolution', 'what': f'{kw}: call #{call_no} of the history {call_temps}: per-call temperature {Tcall} / configured {Tcfg} but gumbel_sample received {T_seen}', 'case': dict(kw=kw, Tcall=Tcall, history=call_temps, call_no=call_no)})
+                active = train and stochastic and Teff > 0
+                L2 = logits.reshape(-1, logits.shape[-1])
+                I2 = ind.reshape(-1)
+                if not active:
+                    dist['fallback_cases'] += 1
+                    if noises:
+                        failures.append({'key': 'noise-in-deterministic-mode', 'what': f'{kw} train={train} T={Teff}: gumbel noise was drawn although selection must be deterministic', 'case': dict(kw=kw, T=Teff, train=train)})
+                    for t in range(L2.shape[0]):
+                        qcases.append(f'(if Nat.eqb (argmax_first Q_ops {qvec(L2[t].double().tolist())}) {int(I2[t])} then 0 else 1)%nat')
+                        qmeta.append(dict(kw=kw, T=Teff, train=train, token=t, logits=L2[t].tolist(), idx=int(I2[t])))
+                    continue
+                dist['stochastic_calls'] += 1
+                if len(noises) != 1 or noises[0][1].shape != logits.shape:
+                    failures.append({'key': 'noise-shape', 'what': f'{kw}: expected one noise tensor of the shape of the logits (independent noise per position and code), got {[tuple(e[1].shape) for e in noises]}', 'case': dict(kw=kw)})
+                    continue
+                u, gout = noises[0][1], noises[0][2]
+                # cross-check of the capture: -log(-log(u)) recomputed equals what the module used
+                if not torch.allclose(-torch.log((-torch.log(u.clamp(min=1e-20))).clamp(min=1e-20)), gout, atol=1e-5, rtol=1e-5):
+                    failures.append({'key': 'noise-capture', 'what': 'captured uniforms do not reproduce the module\'s gumbel noise', 'case': dict(kw=kw)})
+                    continue
+                U2 = u.reshape(-1, u.shape[-1])
                 for t in range(L2.shape[0]):
-                    qcases.append(f'(if Nat.eqb (argmax_first Q_ops {qvec(L2[t].double().tolist())}) {int(I2[t])} then 0 else 1)%nat')
-                    qmeta.append(dict(kw=kw, T=Teff, train=train, token=t, logits=L2[t].tolist(), idx=int(I2[t])))
-                continue
-            dist['stochastic_calls'] += 1
-            if len(noises) != 1 or noises[0][1].shape != logits.shape:
-                failures.append({'key': 'noise-shape', 'what': f'{kw}: expected one noise tensor of the shape of the logits (independent noise per position and code), got {[tuple(e[1].shape) for e in noises]}', 'case': dict(kw=kw)})
-                continue
-            u, gout = noises[0][1], noises[0][2]
-            # cross-check of the capture: -log(-log(u)) recomputed equals what the module used
-            if not torch.allclose(-torch.log((-torch.log(u.clamp(min=1e-20))).clamp(min=1e-20)), gout, atol=1e-5, rtol=1e-5):
-                failures.append({'key': 'noise-capture', 'what': 'captured uniforms do not reproduce the module\'s gumbel noise', 'case': dict(kw=kw)})
-                continue
-            U2 = u.reshape(-1, u.shape[-1])
-            for t in range(L2.shape[0]):
-                us = U2[t].double().tolist()
-                ls = L2[t].double().tolist()
-                j = int(I2[t])
-                if min(us) < 1e-6 or max(us) > 1 - 1e-6:
-                    dist['discarded_extreme_u'] += 1
-                    continue
-                dist['tokens_checked'] += 1
-                det = max(range(K), key=lambda i: ls[i])
-                changed = det != j
-                dist['noise_changed_winner'] += changed
-                nt += changed
-                if not (0 <= j < K):
-                    failures.append({'key': 'index-range', 'what': f'sampled index {j} out of range', 'case': dict(kw=kw)})
-                    continue
-                Tl = rlit(Teff)
-                for i in range(K):
-                    if i == j:
+                    us = U2[t].double().tolist()
+                    ls = L2[t].double().tolist()
+                    j = int(I2[t])
+                    if min(us) < 1e-6 or max(us) > 1 - 1e-6:
+                        dist['discarded_extreme_u'] += 1
                         continue
-                    prop = f'{rlit(ls[i])} / {Tl} - ln (- ln {rlit(us[i])}) <= {rlit(ls[j])} / {Tl} - ln (- ln {rlit(us[j])}) + {DELTA}'
-                    goals.setdefault(gid % core.NPROC, []).append((gid, prop))
-                    gmeta[gid] = dict(kw=kw, T=Teff, logits=ls, u=us, selected=j, rival=i)
-                    gid += 1
+                    dist['tokens_checked'] += 1
+                    det = max(range(K), key=lambda i: ls[i])
+                    changed = det != j
+                    dist['noise_changed_winner'] += changed
+                    nt += changed
+                    if not (0 <= j < K):
+                        failures.append({'key': 'index-range', 'what': f'sampled index {j} out of range', 'case': dict(kw=kw)})
+                        continue
+                    Tl = rlit(Teff)
+                    for i in range(K):
+                        if i == j:
+                            continue
+                        prop = f'{rlit(ls[i])} / {Tl} - ln (- ln {rlit(us[i])}) <= {rlit(ls[j])} / {Tl} - ln (- ln {rlit(us[j])}) + {DELTA}'
+                        goals.setdefault(gid % core.NPROC, []).append((gid, prop))
+                        gmeta[gid] = dict(kw=kw, T=Teff, logits=ls, u=us, selected=j, rival=i)
+                        gid += 1
         if len(samples) < 4:
-            samples.append(dict(kw=kw, T=Teff, train=train))
+            samples.append(dict(kw=kw, T=Teff, train=train, history=call_temps))
     dist['race_goals'] = gid
     import concurrent.futures
     with concurrent.futures.ThreadPoolExecutor(max_workers=core.NPROC) as ex:
